@@ -158,7 +158,7 @@ pub fn random_rev(rng: &mut Rng) -> RevOutcome {
 
 pub fn random_cleanup(rng: &mut Rng) -> CleanupSpec {
     CleanupSpec {
-        pending: *rng.pick(&[PendingSpec::NoneFfff, PendingSpec::NoneFfff, PendingSpec::NoBmp, PendingSpec::Dangling]),
+        pending: *rng.pick(&[PendingSpec::NoneFfff, PendingSpec::NoneFfff, PendingSpec::NoBmp, PendingSpec::Dangling, PendingSpec::Dangling, PendingSpec::DanglingAt(0), PendingSpec::DanglingAt(9999), PendingSpec::DanglingWithList]),
         pending_pre: if rng.pct(20) { 1 + rng.below(2) as u8 } else { 0 },
         cancel: RevOutcome {
             pre: rng.below(3) as u8,
@@ -967,7 +967,7 @@ impl Check for ClientCheck {
             }
             "C19" => {
                 // (own op commit|cancel) x (other token open or not) x pending form x 256 eod outcomes (+completion)
-                let n = 2 * 2 * 2 * 3 * 257 * 2;
+                let n = 2 * 2 * 2 * 6 * 257 * 2;
                 fams.push(Family::new("cleanup_grid_all_eod_outcomes", n, true, |mut i, _| {
                     let commit = i % 2 == 0;
                     i /= 2;
@@ -976,8 +976,8 @@ impl Check for ClientCheck {
                     i /= 2;
                     let other_open = i % 2 == 1;
                     i /= 2;
-                    let pending = [PendingSpec::NoneFfff, PendingSpec::NoBmp, PendingSpec::Dangling][(i % 3) as usize];
-                    i /= 3;
+                    let pending = [PendingSpec::NoneFfff, PendingSpec::NoBmp, PendingSpec::Dangling, PendingSpec::DanglingAt(0), PendingSpec::DanglingAt(9999), PendingSpec::DanglingWithList][(i % 6) as usize];
+                    i /= 6;
                     let noise = (i % 2) as u8;
                     i /= 2;
                     let end = if i == 256 { EndSpec::Completion } else { EndSpec::Abort(i as u8) };
@@ -1010,7 +1010,8 @@ impl Check for ClientCheck {
                     ops.push(if commit {
                         OpSpec::Commit {
                             token: "A".into(),
-                            amount: 1000,
+                            // nothing, a part, everything, more than everything
+                            amount: [1000u64, 0, 2500, 2501, u64::MAX, 1, 2499][(i % 7) as usize],
                             rev: RevOutcome {
                                 pre: noise,
                                 status: true,
@@ -1076,6 +1077,24 @@ impl Check for ClientCheck {
                     let k = ((i / 256) % 4) as u8;
                     let ex = i / 1024;
                     abort_exchange_plan(ex, code, k, k / 2)
+                }));
+                // the reversal of the dangling pre-authorisation inside the clean-up is aborted
+                fams.push(Family::new("dangling_reversal_aborted_x_256_codes", 256 * 2 * 4, true, |i, _| {
+                    let code = (i % 256) as u8;
+                    let commit = (i / 256) % 2 == 0;
+                    let pending = [PendingSpec::Dangling, PendingSpec::DanglingAt(0), PendingSpec::DanglingAt(9999), PendingSpec::DanglingWithList][(i / 512) as usize];
+                    let cleanup = CleanupSpec {
+                        pending,
+                        cancel: RevOutcome { pre: (i % 2) as u8, status: false, prints: 0, end: EndSpec::Abort(code) },
+                        ..CleanupSpec::plain()
+                    };
+                    let begin = OpSpec::Begin { token: "A".into(), res: ResOutcome::success() };
+                    let close = if commit {
+                        OpSpec::Commit { token: "A".into(), amount: 100, rev: RevOutcome::success(), cleanup }
+                    } else {
+                        OpSpec::Cancel { token: "A".into(), rev: RevOutcome::success(), cleanup }
+                    };
+                    ClientPlan::plain(vec![begin, close])
                 }));
                 // the abort of a reservation in the richer forms ZVT 2.2.9 allows: currency code, TLV
                 // container with extended error code (one or two bytes) and text
